@@ -19,8 +19,42 @@ def assoc_family(leaves=LEAVES):
 
 MUST = {}
 
+BASE_ATOMS = ('p', 'q', 'x_1')
+# identifiers, none of them a reserved word of any of the four grammars
+KEYWORD_LIKE = ('Fail', 'Grant', 'Xfer_1', 'G_2', 'F1', 'Apple', 'Exit', 'Until', 'Rel', 'AGx', 'EFy', 'AXz', 'AUa', 'nota', 'andy',
+                'orb', 'truex', 'falsey', 'True', 'False', '_p', 'U1', 'R2', 'A1', 'E_', 'XX', 'GF', 'AA', 'Not', 'notp', 'not_p',
+                'or_', 'and1', 'true_', 'AFAIK', 'EXP', 'Up', 'Rq', 'Xp', 'Gq', 'Fp', 'Ap', 'Eq')
 
-def pools(rng, cap, depth=2, extra_random=0, rdepth=3):
+
+def rename_atom(t, old, new):
+    if t[0] == 'ap':
+        return ('ap', new) if t[1] == old else t
+    return (t[0],) + tuple(rename_atom(x, old, new) if isinstance(x, tuple) else x for x in t[1:])
+
+
+def mentions(t, name):
+    if t[0] == 'ap':
+        return t[1] == name
+    return any(isinstance(x, tuple) and mentions(x, name) for x in t[1:])
+
+
+def size(t):
+    return 1 + sum(size(x) for x in t[1:] if isinstance(x, tuple))
+
+
+def name_family(logic, pool, rng, per_name=24):
+    """every small formula with p (<= 3 nodes: one operator applied to atoms) and a sample of the others, once per name"""
+    withp = [t for t in pool if mentions(t, 'p')]
+    small = [t for t in withp if size(t) <= 3]
+    rest = [t for t in withp if size(t) > 3]
+    out = []
+    for name in KEYWORD_LIKE:
+        for t in small + rng.sample(rest, min(len(rest), per_name)):
+            out.append(rename_atom(t, 'p', name))
+    return out
+
+
+def pools(rng, cap, depth=2, extra_random=0, rdepth=3, names=True):
     out = {}
     pl = gen.levels(gen.pl_ops(), depth, leaves=LEAVES, cap=cap, rng=rng)
     out['PL'] = [t for l in pl for t in l] + gen.nary_variants(LEAVES)
@@ -40,6 +74,12 @@ def pools(rng, cap, depth=2, extra_random=0, rdepth=3):
     for k in out:
         out[k] = fam + out[k]
         MUST[k] = list(fam)
+    # identifier-style atom names that begin like an operator or a reserved word (C09, C11: "identifier-style atom
+    # names", "not reserved words"): a sample of each pool with p renamed
+    # (not for C10: where keywords and identifiers overlap the documented grammar does not say how text is split)
+    for k in out:
+        if names:
+            out[k] = out[k] + name_family(k, out[k], rng)
     for k in out:
         seen = set()
         uniq = []
